@@ -1,5 +1,6 @@
 from fw import PropertyCheck
 import fam_text
+import fam_world
 
 
 class Check(PropertyCheck):
@@ -18,4 +19,5 @@ class Check(PropertyCheck):
     def families(self, rng, tier):
         return [("text.render_roundtrip", fam_text.text_cases(rng.sub("text_cases"), tier)),
                 ("text.parse", fam_text.parse_cases(rng.sub("parse_cases"), tier)),
-                ("text.widths", fam_text.width_cases(rng.sub("width_cases"), tier))]
+                ("text.widths", fam_text.width_cases(rng.sub("width_cases"), tier)),
+                ("world.rate_text", fam_world.rate_text_histories(rng.sub("rate_text"), tier))]
